@@ -530,6 +530,10 @@ func bufferTranslate(s *seq, phase int, code map[string]uint8, buffer *bytes.Buf
 		return
 	}
 
+	if phase < 0 {
+		err = fmt.Errorf("cannot translate a sequence with a negative phase (%d)", phase)
+		return
+	}
 	if len(s.sequence) < 3+phase {
 		err = fmt.Errorf("cannot translate a sequence with length < 3+phase (%s)", s.name)
 		return
